@@ -8,7 +8,7 @@ import common
 from common import MachineryError
 
 HERE = os.path.dirname(os.path.abspath(__file__))
-NEG = {"MC_BSControl_negG": "NoStaleRead", "MC_BSControl_negC": "TargetInRange"}
+NEG = {"MC_BSControl_negG": "NoStaleRead", "MC_BSControl_negC": "TargetInRange", "MC_BSControl_negF": "NoRejectAtFloor"}
 
 
 def validate(path, verbose=False):
